@@ -5,6 +5,8 @@ pub mod c01;
 pub mod c02;
 pub mod c03;
 pub mod c05;
+pub mod c06;
+pub mod c07;
 pub mod c08;
 pub mod c09;
 pub mod c10;
@@ -20,6 +22,8 @@ pub fn dispatch(id: &str, run: &mut Run) -> bool {
         "C03" => c03::run(run),
         "C04" => c05::run(run, c05::Mode::C04),
         "C05" => c05::run(run, c05::Mode::C05),
+        "C06" => c06::run(run),
+        "C07" => c07::run(run),
         "C08" => c08::run(run),
         "C09" => c09::run(run),
         "C10" => c10::run(run),
